@@ -300,3 +300,137 @@ pub fn run_regr_multi<F: Float>(case: &Case, viols: &mut Sink) -> Cnt {
     }
     cnt
 }
+
+// ---------------------------------------------------------------------------------------------
+// memory layouts: the same logical vectors / matrices handed over as strided, reversed,
+// column-major ... views must give the scores of the standard-layout run
+// ---------------------------------------------------------------------------------------------
+use crate::layout::{hold1, hold2, L1, L1_ALL, L2, L2_ALL};
+
+fn same_bits(a: &Result<f64, String>, b: &Result<f64, String>) -> bool {
+    match (a, b) {
+        (Ok(x), Ok(y)) => x.to_bits() == y.to_bits() || (x.is_nan() && y.is_nan()),
+        (Err(_), Err(_)) => true,
+        _ => false,
+    }
+}
+
+pub fn lay_regr<F: Float>(outer: &Case, float: &str, pred: &[f64], truth: &[f64], viols: &mut Sink) -> Cnt {
+    let mut cnt = Cnt::default();
+    let tol = tol_of(float);
+    let p: Vec<F> = pred.iter().map(|&x| F::cast(x)).collect();
+    let t: Vec<F> = truth.iter().map(|&x| F::cast(x)).collect();
+    let p64: Vec<f64> = p.iter().map(|x| x.to_f64().unwrap()).collect();
+    let t64: Vec<f64> = t.iter().map(|x| x.to_f64().unwrap()).collect();
+    let exp = reference(&p64, &t64);
+    let base = eight::<F, _, _>(&Array1::from(p.clone()), &Array1::from(t.clone()));
+    let poison = |_: usize| F::cast(1e30);
+    cnt.evals += 1;
+    cnt.nontrivial += 1;
+    cnt.bump("layouts.regression_single_cases", 1);
+    for (lpn, lp) in L1_ALL {
+        for (ltn, lt) in L1_ALL {
+            if lp == L1::Std && lt == L1::Std {
+                continue;
+            }
+            let hp = hold1(&p, &poison, lp);
+            let ht = hold1(&t, &poison, lt);
+            let (pv, tv) = (hp.view(), ht.view());
+            let r = eight::<F, _, _>(&pv, &tv);
+            cnt.bump("layouts.regression_layout_runs", 1);
+            for i in 0..8 {
+                let Some((_, scale, slack)) = exp.v[i] else { continue };
+                cnt.bump("layouts.values_compared", 1);
+                if same_bits(&r[i], &base[i]) {
+                    cnt.bump("layouts.values_bit_identical", 1);
+                    continue;
+                }
+                let ok = match (&r[i], &base[i]) {
+                    (Ok(a), Ok(b)) => closef(*a, *b, 2.0 * tol.rel, 2.0 * (tol.abs + slack), scale),
+                    _ => false,
+                };
+                if !ok {
+                    report!(
+                        viols,
+                        format!("regression.{}.layout_dependence", NAMES[i]),
+                        outer,
+                        json!({"metric": NAMES[i], "pred_layout": lpn, "truth_layout": ltn}),
+                        "{}: prediction as {}, truth as {} gives {:?}; the standard-layout arrays with the same elements give {:?}",
+                        NAMES[i],
+                        lpn,
+                        ltn,
+                        r[i],
+                        base[i]
+                    );
+                }
+            }
+        }
+    }
+    cnt
+}
+
+pub fn lay_regr_multi<F: Float>(outer: &Case, float: &str, pred_cols: &[Vec<f64>], truth_cols: &[Vec<f64>], viols: &mut Sink) -> Cnt {
+    let mut cnt = Cnt::default();
+    let tol = tol_of(float);
+    let m = pred_cols.len();
+    let n = pred_cols[0].len();
+    let getp = |i: usize, j: usize| F::cast(pred_cols[j][i]);
+    let gett = |i: usize, j: usize| F::cast(truth_cols[j][i]);
+    let poison = |_: usize, _: usize| F::cast(1e30);
+    let exps: Vec<Expect> = (0..m)
+        .map(|j| {
+            let pc: Vec<f64> = (0..n).map(|i| getp(i, j).to_f64().unwrap()).collect();
+            let tc: Vec<f64> = (0..n).map(|i| gett(i, j).to_f64().unwrap()).collect();
+            reference(&pc, &tc)
+        })
+        .collect();
+    let bp = hold2(n, m, &getp, &poison, L2::Std);
+    let bt = hold2(n, m, &gett, &poison, L2::Std);
+    let base = eight_multi::<F, _, _>(&bp.view(), &bt.view());
+    cnt.evals += 1;
+    cnt.nontrivial += 1;
+    cnt.bump("layouts.regression_multi_cases", 1);
+    for (lpn, lp) in L2_ALL {
+        for (ltn, lt) in L2_ALL {
+            if lp == L2::Std && lt == L2::Std {
+                continue;
+            }
+            let hp = hold2(n, m, &getp, &poison, lp);
+            let ht = hold2(n, m, &gett, &poison, lt);
+            let r = eight_multi::<F, _, _>(&hp.view(), &ht.view());
+            cnt.bump("layouts.regression_layout_runs", 1);
+            for i in 0..8 {
+                for j in 0..m {
+                    let Some((_, scale, slack)) = exps[j].v[i] else { continue };
+                    cnt.bump("layouts.values_compared", 1);
+                    let a: Result<f64, String> = r[i].as_ref().map(|v| v.get(j).copied().unwrap_or(f64::NAN)).map_err(|e| e.clone());
+                    let b: Result<f64, String> = base[i].as_ref().map(|v| v.get(j).copied().unwrap_or(f64::NAN)).map_err(|e| e.clone());
+                    if same_bits(&a, &b) {
+                        cnt.bump("layouts.values_bit_identical", 1);
+                        continue;
+                    }
+                    let ok = match (&a, &b) {
+                        (Ok(x), Ok(y)) => closef(*x, *y, 2.0 * tol.rel, 2.0 * (tol.abs + slack), scale),
+                        _ => false,
+                    };
+                    if !ok {
+                        report!(
+                            viols,
+                            format!("regression.{}.layout_dependence", NAMES[i]),
+                            outer,
+                            json!({"metric": NAMES[i], "column": j, "pred_layout": lpn, "truth_layout": ltn}),
+                            "multi-target {} column {}: prediction matrix as {}, truth matrix as {} gives {:?}; standard layout gives {:?}",
+                            NAMES[i],
+                            j,
+                            lpn,
+                            ltn,
+                            a,
+                            b
+                        );
+                    }
+                }
+            }
+        }
+    }
+    cnt
+}
